@@ -9,6 +9,9 @@ from . import env, tlc
 from .core import Machinery
 
 NS = 3
+# the <srv> field of series 3 contains '%' (a name is data, never a format string)
+SRV = {1: 's1', 2: 's2', 3: 's3%s%'}
+SRV_OF = {v: k for k, v in SRV.items()}
 START = 40      # the virtual clock starts here so that older intervals exist from the beginning
 
 
@@ -111,7 +114,7 @@ class AggRun(object):
     bm = self.am.buffers.BufferManager
     p = dict(buf=[], conf=[], next=[], timer=[], now=int(self.ftime.now))
     for s in range(1, NS + 1):
-      mb = bm.buffers.get('out.s%d' % s)
+      mb = bm.buffers.get('out.' + SRV[s])
       if mb is None:
         p['buf'].append([])
         p['conf'].append(False)
@@ -138,7 +141,7 @@ class AggRun(object):
     pass
 
   def input(self, s, ts, vid, selfnamed=False):
-    name = ('%s.s%d' % ('keep' if (len(self.ev) + ts) % 2 else 'keep2', s)) if selfnamed else 'in.s%d.h%d' % (s, vid % 2)
+    name = (('keep' if (len(self.ev) + ts) % 2 else 'keep2') + '.' + SRV[s]) if selfnamed else 'in.' + SRV[s] + '.h%d' % (vid % 2)
     # every third datapoint carries a fractional timestamp late in its second (it belongs to the interval of floor(ts))
     fts = ts + 0.75 if (vid + ts) % 3 == 0 else ts
     dp = (fts, float(4 ** vid))
@@ -156,8 +159,8 @@ class AggRun(object):
     self.clock.advance(1)
     em = []
     for m, dp in self.emitted:
-      if m.startswith('out.s'):
-        em.append([int(m[5:]), int(dp[0]), decode(dp[1])])
+      if m.startswith('out.') and m[4:] in SRV_OF:
+        em.append([SRV_OF[m[4:]], int(dp[0]), decode(dp[1])])
     self.ev.append(dict(e='tick', em=em, p=self.project()))
 
 
